@@ -4,6 +4,7 @@ mod h;
 mod json;
 mod props;
 mod scenarios;
+mod selftest;
 
 use explore::*;
 use h::Cfg;
@@ -51,6 +52,7 @@ fn main() {
         Some("explore") => dev_explore(&args[1..]),
         Some("check") => std::process::exit(check::check_main(&args[1..], &exe())),
         Some("replay") => std::process::exit(check::replay_main(&args[1], &exe())),
+        Some("selftest") => std::process::exit(selftest::selftest_main(&exe(), args.iter().any(|a| a == "thorough"))),
         Some("plan") => {
             for p in props::ALL_PROPS {
                 let pl = props::plan(p);
